@@ -21,9 +21,12 @@ type replayFile struct {
 	Index     int             `json:"scenario_index"`
 	Family    string          `json:"family"`
 	Scenario  *proto.Scenario `json:"scenario"` // carries the explicit schedule and the map-order fault
-	Meta      ovMeta          `json:"override_meta,omitempty"`
-	Switches  int             `json:"context_switches"`
-	PermSites []string        `json:"permuted_sites,omitempty"` // file:line of the map ranges named in scenario.perm.sites
+	// Prelude: scenarios that the same OS process must execute first (only for
+	// violations that depend on what the process compiled before).
+	Prelude   []json.RawMessage `json:"prelude,omitempty"`
+	Meta      ovMeta            `json:"override_meta,omitempty"`
+	Switches  int               `json:"context_switches"`
+	PermSites []string          `json:"permuted_sites,omitempty"` // file:line of the map ranges named in scenario.perm.sites
 	Original  struct {
 		Tasks, Ops, Slices int
 	} `json:"original_size"`
@@ -41,7 +44,11 @@ func cloneScenario(sc *proto.Scenario) *proto.Scenario {
 // eval executes a candidate and returns the finding that preserves the
 // signature class, if any.
 func (d *driver) eval(sc *proto.Scenario, want string) (*finding, *proto.Result, error) {
-	rec := d.execute(nil, sc) // fresh processes only
+	return d.evalWith(nil, sc, want)
+}
+
+func (d *driver) evalWith(prelude [][]byte, sc *proto.Scenario, want string) (*finding, *proto.Result, error) {
+	rec := d.executeWith(nil, prelude, sc) // fresh processes only
 	if rec.err != nil {
 		return nil, nil, rec.err
 	}
@@ -198,19 +205,51 @@ func (d *driver) confirmAndShrink(rec *record, f *finding) (string, *replayFile,
 	}
 	best := *f
 	runs := 0
-	// 1. confirm: the explicit-schedule form must reproduce, twice
+	// 1. confirm: the explicit-schedule form must reproduce, twice, in fresh
+	// processes. If it does not, the violation may depend on what the serving
+	// process had compiled earlier: retry with that prelude in the same process
+	// and, if it reproduces, minimise the prelude.
+	var prelude [][]byte
 	if rec.res != nil {
 		for k := 0; k < 2; k++ {
-			g, res, err := d.eval(cloneScenario(cur), want)
+			g, res, err := d.evalWith(prelude, cloneScenario(cur), want)
 			runs++
 			if err != nil {
 				return "", nil, err
 			}
+			if g == nil && prelude == nil && len(rec.prelude) > 0 {
+				prelude = rec.prelude
+				k = -1
+				continue
+			}
 			if g == nil {
-				return "", nil, toolErrf("violation %s of scenario %d (seed %d) did not reproduce from its recorded schedule (run %d); refusing to report it", want, rec.idx, d.seed, k+1)
+				return "", nil, toolErrf("violation %s of scenario %d (seed %d) did not reproduce from its recorded schedule (run %d, prelude of %d scenarios); refusing to report it", want, rec.idx, d.seed, k+1, len(prelude))
 			}
 			best = *g
 			cur.Sched.Explicit = append([]proto.Slice{}, res.Schedule...)
+		}
+		// ddmin over the prelude
+		for chunk := (len(prelude) + 1) / 2; len(prelude) > 0 && chunk >= 1; chunk /= 2 {
+			for lo := 0; lo < len(prelude); {
+				hi := lo + chunk
+				if hi > len(prelude) {
+					hi = len(prelude)
+				}
+				cand := append(append([][]byte{}, prelude[:lo]...), prelude[hi:]...)
+				g, _, err := d.evalWith(cand, cloneScenario(cur), want)
+				runs++
+				if err == nil && g != nil {
+					prelude = cand
+				} else {
+					lo = hi
+				}
+			}
+			if chunk == 1 {
+				break
+			}
+		}
+		if len(prelude) > 0 {
+			best.Detail = fmt.Sprintf("[depends on process history: reproduces only after %d earlier scenario(s) in the same OS process] ", len(prelude)) + best.Detail
 		}
 	}
 	deadline := time.Now().Add(time.Duration(envInt("VERIF_SHRINK_SECONDS", 90)) * time.Second)
@@ -220,7 +259,7 @@ func (d *driver) confirmAndShrink(rec *record, f *finding) (string, *replayFile,
 			return false
 		}
 		runs++
-		g, res, err := d.eval(cand, want)
+		g, res, err := d.evalWith(prelude, cand, want)
 		if err != nil || g == nil || res == nil {
 			return false
 		}
@@ -309,7 +348,7 @@ func (d *driver) confirmAndShrink(rec *record, f *finding) (string, *replayFile,
 		// 8. smallest set of permuted map sites
 		if cur.Perm.Mode != "" && cur.Perm.Mode != simrt.PermCanonical {
 			// sites that actually saw a non-identity order
-			g, res, err := d.eval(cloneScenario(cur), want)
+			g, res, err := d.evalWith(prelude, cloneScenario(cur), want)
 			runs++
 			if err == nil && g != nil && res != nil {
 				var sites []uint32
@@ -341,6 +380,9 @@ func (d *driver) confirmAndShrink(rec *record, f *finding) (string, *replayFile,
 	}
 	cur.Dump = false
 	rep.Scenario = cur
+	for _, p := range prelude {
+		rep.Prelude = append(rep.Prelude, json.RawMessage(p))
+	}
 	rep.Finding = best
 	rep.Switches = countSwitches(cur.Sched.Explicit)
 	rep.ShrinkRuns = runs
@@ -444,8 +486,12 @@ func (d *driver) replay(path string) int {
 	fmt.Printf("replaying %s: property=%s class=%s culprit=%s (seed %d, scenario %d)\n", path, rep.Property, rep.Finding.Class, rep.Finding.Kind, rep.VerifSeed, rep.Index)
 	var got [2]*finding
 	var hashes [2]string
+	var prelude [][]byte
+	for _, p := range rep.Prelude {
+		prelude = append(prelude, []byte(p))
+	}
 	for k := 0; k < 2; k++ {
-		g, res, err := d.eval(cloneScenario(rep.Scenario), want)
+		g, res, err := d.evalWith(prelude, cloneScenario(rep.Scenario), want)
 		if err != nil {
 			fail2("%v", err)
 		}
